@@ -103,7 +103,11 @@ impl<L: Language, N: Analysis<L>> EGraph<L, N> {
         let enode = self.synify_enode(enode);
 
         let syn = self.mk_singleton_class(enode);
-        self.semify_app_id(syn)
+        // The new class can be merged into another one during its own rebuild (by congruence, or by an
+        // `Analysis::modify` hook that unions); the slot set of a merged class is frozen, so slots that
+        // become redundant afterwards would stay in the result: return the canonical invocation.
+        let app = self.semify_app_id(syn);
+        self.find_applied_id(&app)
     }
 
     pub fn lookup(&self, n: &L) -> Option<AppliedId> {
